@@ -319,7 +319,7 @@ func ZZ_C15_update() {
 	prevFFC := zzBool("prevFFC", 0)
 	seed := d.backgroundFrames == 0
 	zzReach("pre-state")
-	avg, _ := d.updateBackground(f, prevFFC)
+	avg, changed := d.updateBackground(f, prevFFC)
 	n := (H - 2*e) * (W - 2*e)
 	sum := 0
 	for y := e; y < H-e; y++ {
@@ -346,7 +346,7 @@ func ZZ_C15_update() {
 			}
 		}
 	}
-	if n == 1 || n == 2 || (n == 4 && zzParam("MEAN4") == 1) {
+	if changed && (n == 1 || n == 2 || (n == 4 && zzParam("MEAN4") == 1)) {
 		zzReach("mean checked")
 		zzAssert(avg == float64(sum)/float64(n), "C15: returned average is the mean of the interior background")
 	}
